@@ -353,6 +353,11 @@ class Evaluator:
             return ("glob", r)
         if name in BUILTINS:
             return ("glob", "builtins." + name)
+        if self.tag == "spec":
+            # a specification keeps its meaning when the module drops or renames an import
+            a = self.P.spec_alias(name)
+            if a is not None:
+                return ("glob", a)
         self.unbound.append((name, node, "global"))
         return ("unbound", name)
 
